@@ -56,6 +56,7 @@ let retry_of (m : (string * string) list) (rc : dhcp_retry_config) : dhcp_retry_
 let () =
   iter_cases (fun id cfg ops ->
     Printf.printf "case %s\n" id;
+    if cfg_get cfg "udp" "0" <> "0" then print_string "coexist: implementation-side oracle only\n" else
     let apply = cfg_get cfg "apply" "1" <> "0" in
     let rxck = cfg_get cfg "rxck" "1" <> "0" in
     (* echoed, not modelled: the parameter request list bytes the application configured *)
